@@ -111,23 +111,23 @@ CONSUME_UNDECIDED = {"StartStageHandler": "condition set too large for the quick
                      "RunTaskHandler": "condition set too large to enumerate; covered by C05.R5 (no silent RUNNING) and C02.R3"}
 
 
-def _r6(ctx, rep) -> None:
+def consume_rule(ctx, rep, rid: str, only: frozenset | None = None) -> tuple:
+    """the consume table applied to the registered handlers (all, or those named in `only`); shared with C17.R6"""
     from ..consume import consume_paths, justify
     from ..handlers import registered_handlers
-    rep.rule("C05.R6", "every handler path that returns normally without pushing a message or storing a status is taken under a reviewed path condition (table CONSUME_OK: moot by durable state, or another in-flight entity carries the workflow on)")
     n_paths = n_cons = 0
     for h in registered_handlers(ctx.prog):
         name = h.cls.name
-        if h.marker:
+        if h.marker or (only is not None and name not in only):
             continue
         if name in CONSUME_UNDECIDED and not (rep.tier == "thorough" and name in CONSUME_THOROUGH):
-            rep.undecided.append(f"C05.R6 for {name}: {CONSUME_UNDECIDED[name]}")
+            rep.undecided.append(f"{rid} for {name}: {CONSUME_UNDECIDED[name]}")
             continue
         entries = CONSUME_OK.get(name)
         try:
             cps, n = consume_paths(ctx, h, CONSUME_THOROUGH.get(name) or CONSUME_MODE.get(name, "all"))
         except AnalysisError as e:
-            rep.error(f"C05.R6 {name}: {e}")
+            rep.error(f"{rid} {name}: {e}")
             continue
         n_paths += n
         used = set()
@@ -137,13 +137,19 @@ def _r6(ctx, rep) -> None:
             cond = " ; ".join(cp.ordered) or "(no test decided)"
             if j is not None:
                 used.add(tuple(sorted(j[0])))
-                rep.ok("C05.R6", f"{name}: consume [{cp.shape}]", f"under {cond}: {j[1]}", cp.site[0], cp.site[1])
+                rep.ok(rid, f"{name}: consume [{cp.shape}]", f"under {cond}: {j[1]}", cp.site[0], cp.site[1])
             else:
-                rep.fail("C05.R6", f"{name}: message consumed without continuation", f"path [{cp.shape}] taken under `{cond}` pushes nothing and stores nothing, and this condition is not a reviewed reason for ending the message chain: "
+                rep.fail(rid, f"{name}: message consumed without continuation", f"path [{cp.shape}] taken under `{cond}` pushes nothing and stores nothing, and this condition is not a reviewed reason for ending the message chain: "
                          "if nobody else is certain to continue the workflow it is stuck with an empty queue", cp.site[0], cp.site[1], disc="consume:" + ";".join(sorted(f for f in cp.facts if "::" not in f)))
         for facts, reason in entries or []:
             if tuple(sorted(facts)) not in used:
-                rep.notes.append(f"C05.R6 table entry not exercised on this tree: {name} {sorted(facts)}")
+                rep.notes.append(f"{rid} table entry not exercised on this tree: {name} {sorted(facts)}")
+    return n_paths, n_cons
+
+
+def _r6(ctx, rep) -> None:
+    rep.rule("C05.R6", "every handler path that returns normally without pushing a message or storing a status is taken under a reviewed path condition (table CONSUME_OK: moot by durable state, or another in-flight entity carries the workflow on)")
+    n_paths, n_cons = consume_rule(ctx, rep, "C05.R6")
     rep.count(consume_probe_paths=n_paths, consume_paths=n_cons)
     rep.floor("consume-only paths examined", n_cons, 30)
     # wait sets: a handler that consumes its message because "children are still in flight" must only wait for children that
